@@ -383,6 +383,40 @@ def slot_memos(ctx, fn, ps):
             mutable = sorted(f_ for f_ in fields - kfields if fn.cls is not None and ctx.M.field_written_outside_init(fn.cls, f_))
             foreign = sorted({w.fn.qn for f_ in roots for w in writers_of_attr(ctx.M, f_, owner=fn.cls.name if fn.cls else None)
                               if w.fn.qn != fn.qn and w.fn.name != '__init__' and not ctx.M.ctor_only(w.fn)})
+            # an input of the answer that the class lets its owner re-assign (a property setter, a method of the class): whoever assigns it must drop the slot
+            stale_w = []
+            maintained = []
+            if fn.cls is not None:
+                def _assigns(g_, names_):
+                    return any(isinstance(t_, ast.Attribute) and isinstance(t_.value, ast.Name) and t_.value.id == 'self' and t_.attr in names_
+                               for n_ in ast.walk(g_.node) for t_ in ((n_.targets if isinstance(n_, ast.Assign) else [n_.target] if isinstance(n_, (ast.AugAssign, ast.AnnAssign)) else [])))
+                def _drops(g_):
+                    if _assigns(g_, roots):
+                        return True
+                    return any(isinstance(n_, ast.Call) and isinstance(n_.func, ast.Attribute) and isinstance(n_.func.value, ast.Name) and n_.func.value.id == 'self'
+                               and fn.cls.lookup(n_.func.attr) is not None and _assigns(fn.cls.lookup(n_.func.attr), roots) for n_ in ast.walk(g_.node))
+                for f_ in mutable:
+                    ws_ = [w for w in writers_of_attr(ctx.M, f_, owner=fn.cls.name) if w.fn.name != '__init__' and not ctx.M.ctor_only(w.fn)]
+                    own_ = [m_ for m_ in fn.cls.methods.values() if m_.name != '__init__' and not ctx.M.ctor_only(m_) and m_.qn != fn.qn and _assigns(m_, {f_})]
+                    if not own_ or any(w.fn.qn not in {m_.qn for m_ in own_} for w in ws_):
+                        continue        # changed from elsewhere (or in place): not an argument about this class alone
+                    if all(_drops(m_) for m_ in own_):
+                        maintained.append(f_)
+                    else:
+                        stale_w.append((next(m_.qn for m_ in own_ if not _drops(m_)), f_))
+                mutable = [f_ for f_ in mutable if f_ not in maintained]
+            if fn.cls is not None:
+                # ... and an input behind a property setter is one the class invites its owner to re-assign
+                for f_ in sorted(fields - kfields):
+                    sg_ = fn.cls.lookup(f_ + '@setter')
+                    if sg_ is not None and f_ not in mutable and not any(f_ == x_[1] for x_ in stale_w):
+                        if not _drops(sg_):
+                            stale_w.append((sg_.qn, f_))
+                        else:
+                            maintained.append(f_)
+                if maintained and not mutable:
+                    foreign = [q_ for q_ in foreign if not any(q_ == m_.qn and _drops(m_) and not any(isinstance(n_, ast.Attribute) and n_.attr in roots and isinstance(n_.ctx, ast.Load) for n_ in ast.walk(m_.node))
+                                                              for m_ in fn.cls.methods.values())]
             snaps = [(_snapshot(st[l_], fn), st[l_]) for _, st in rel for l_, _ in pins]
             vol = [v_ for _, st in rel for v_ in volatile_calls(ctx, st[res[0]], kvars)] if not foreign else []
             if missing:
@@ -394,6 +428,9 @@ def slot_memos(ctx, fn, ps):
             elif vol:
                 verdict = ('unsound', 'the answer is asked of a collaborator, %s, whose reply follows %s as it changes; the remembered question %s records none of that and no '
                                       'other method ever drops the slot: the first reply is handed out for as long as the question compares equal' % (vol[0][0], vol[0][1], fmt(key)[:40]))
+            elif stale_w:
+                verdict = ('unsound', '%s assigns self.%s, which the remembered answer was computed from, and leaves the slot as it is: the same question is then answered '
+                                      'with the figure for the old %s' % (stale_w[0][0], stale_w[0][1], stale_w[0][1]))
             elif mutable:
                 verdict = ('other', 'the answer reads %s, which is rewritten after construction' % mutable)
             elif foreign:
@@ -1488,6 +1525,8 @@ def time_of_day(t):
             return None
         return (hh, mm or 0)
     if name in ('pandas.Timedelta', 'datetime.timedelta', 'pandas.DateOffset', 'pandas.offsets.DateOffset'):
+        if len(args) == 1 and args[0] == T.ZERO and not kws:
+            return (0, 0)           # timedelta(0): no offset at all
         if args:
             return None
         h = n(kws.get('hours', ('num', T.ZERO[1])))
